@@ -70,6 +70,8 @@ func newStdSvc(v stdVariant) (*stdSvc, error) {
 			{Dests: []string{"*.wtls.test"}, Protocol: "TLS", NextHop: ip(24) + ":5070"},
 			// a literal listed after a wildcard that covers it: the literal must still win
 			{Dests: []string{"lit.wudp.test"}, Protocol: "udp", NextHop: ip(22) + ":5070"},
+			// a wildcard meant for IPv4 To hosts
+			{Dests: []string{"10.20.*"}, Protocol: "udp", NextHop: ip(24) + ":5060"},
 		},
 		Hosts: [][2]string{
 			{"proxy-a.test", ip(1)}, {"proxy-b.test", ip(2)}, {"proxy-c.test", ip(3)},
